@@ -308,7 +308,7 @@ def oracle(ctx: Ctx, deep: bool = False):
     # (4) k-space crop/pad == image-space crop/pad under the backward operator
     from direct.data.mri_transforms import CropKspace, PadKspace
 
-    for _ in range(ctx.budget(12, 120)):
+    for _ in range(ctx.budget(40, 300)):
         c, h, w = rng.randint(1, 3), rng.randint(2, 9), rng.randint(2, 9)
         g = torch.Generator().manual_seed(rng.randrange(2 ** 31))
         ksp = torch.randint(-4, 5, (c, h, w, 2), generator=g).float()
@@ -320,8 +320,10 @@ def oracle(ctx: Ctx, deep: bool = False):
         if out.shape != ref.shape or not torch.allclose(T.ifft2(out, dim=(1, 2)), img_ref, atol=1e-4):
             yield Violation("cropkspace-image-equivalence", "CropKspace != fft(center window of ifft(kspace))",
                             {"op": "CropKspace", "shape": [c, h, w, 2], "crop": [ch, cw], "seed": ctx.seed})
-        ph, pw = h + rng.randint(0, 4), w + rng.randint(0, 4)
-        ctx.count(("padk", c, h, w, ph, pw), (ph - h) % 2 == 1 or (pw - w) % 2 == 1, bucket="oracle/PadKspace")
+        # targets smaller / equal / larger per axis, independently (an axis that is already large enough is left alone)
+        ph, pw = max(1, h + rng.choice([-2, -1, 0, 1, 2, 3, 4])), max(1, w + rng.choice([-2, -1, 0, 1, 2, 3, 4]))
+        ctx.count(("padk", c, h, w, ph, pw), (ph - h) % 2 == 1 or (pw - w) % 2 == 1,
+                  bucket="oracle/PadKspace" + ("-mixed" if (ph < h) != (pw < w) else ""))
         smp = {"kspace": ksp.clone(), "filename": "f", "padding": None}
         try:
             out = PadKspace((ph, pw))(smp)["kspace"]
@@ -330,9 +332,10 @@ def oracle(ctx: Ctx, deep: bool = False):
                                                                                    "pad": [ph, pw], "observed": repr(e)})
             continue
         img = T.ifft2(ksp, dim=(1, 2))
-        ref_img = torch.zeros(c, ph, pw, 2)
-        ref_img[:, (ph - h) // 2:(ph - h) // 2 + h, (pw - w) // 2:(pw - w) // 2 + w] = img
-        if tuple(out.shape) != (c, ph, pw, 2) or not torch.allclose(T.ifft2(out, dim=(1, 2)), ref_img, atol=1e-4):
+        oh, ow = max(h, ph), max(w, pw)          # pad_tensor never crops
+        ref_img = torch.zeros(c, oh, ow, 2)
+        ref_img[:, (oh - h) // 2:(oh - h) // 2 + h, (ow - w) // 2:(ow - w) // 2 + w] = img
+        if tuple(out.shape) != (c, oh, ow, 2) or not torch.allclose(T.ifft2(out, dim=(1, 2)), ref_img, atol=1e-4):
             yield Violation("padkspace-image-equivalence" + ("-odd" if (ph - h) % 2 or (pw - w) % 2 else "-even"),
                             "PadKspace != fft(zero-pad centred image)",
                             {"op": "PadKspace", "shape": [c, h, w, 2], "pad": [ph, pw], "seed": ctx.seed})
